@@ -46,7 +46,9 @@ def _collect_pow(expr: Pow) -> tuple[Expr, Dimension]:
     (exp_factor, exp_dim) = collect_quantity_factor_and_dimension(expr.exp)
 
     if is_any_dimension(exp_factor) or dimsys_SI.is_dimensionless(exp_dim):
-        return (base_factor**exp_factor, base_dim**exp_factor)
+        # NOTE: a floating-point zero exponent does not reduce the dimension to `1` by itself
+        dim = dimensionless if getattr(exp_factor, "is_zero", False) else base_dim**exp_factor
+        return (base_factor**exp_factor, dim)
 
     raise ValueError(f"Dimension of '{expr.exp}' is {exp_dim}, but it should be dimensionless")
 
